@@ -129,10 +129,24 @@ pub fn eval(ctx: &Ctx, c: &Case, strace: bool) -> Verdict {
         let _ = std::fs::remove_file(&log);
         let base = tree.base.to_string_lossy().to_string();
         let root = tree.root.to_string_lossy().to_string();
+        // with -f a call may be split into "<pid> name(args <unfinished ...>" and "<pid> <... name resumed>rest) = result": join the halves
+        let mut pending: std::collections::HashMap<String, String> = Default::default();
+        let mut joined: Vec<String> = vec![];
         for line in text.lines() {
+            let pid = line.trim_start().split(' ').next().unwrap_or("").to_string();
+            if let Some(i) = line.find(" <unfinished ...>") { pending.insert(pid, line[..i].to_string()); continue; }
+            if let (Some(a), Some(b)) = (line.find("<... "), line.find(" resumed>")) { if a < b { if let Some(head) = pending.remove(&pid) { joined.push(format!("{}{}", head, &line[b + " resumed>".len()..])); } continue; } }
+            joined.push(line.to_string());
+        }
+        for line in joined.iter().map(|l| l.as_str()) {
             if line.contains(" = -1 ") { continue; }
-            let mutating_call = ["unlink", "rename", "mkdir", "rmdir", "symlink", "link(", "linkat", "chmod", "truncate", "creat("].iter().any(|c| line.contains(c));
-            let write_open = line.contains("open") && (line.contains("O_WRONLY") || line.contains("O_RDWR") || line.contains("O_CREAT") || line.contains("O_TRUNC") || line.contains("O_APPEND"));
+            // "<pid> name(args) = result": the call's name is matched exactly (readlink is not link)
+            let rest = line.trim_start().trim_start_matches(|c: char| c.is_ascii_digit()).trim_start();
+            let name = match rest.find('(') { Some(i) if rest[..i].chars().all(|c| c.is_ascii_alphanumeric() || c == '_') => &rest[..i], _ => continue };
+            const MUTATING: [&str; 31] = ["unlink", "unlinkat", "rename", "renameat", "renameat2", "mkdir", "mkdirat", "rmdir", "symlink", "symlinkat", "link", "linkat", "chmod", "fchmod", "fchmodat", "chown", "fchown", "lchown", "fchownat",
+                "truncate", "ftruncate", "creat", "mknod", "mknodat", "utime", "utimes", "utimensat", "futimesat", "setxattr", "lsetxattr", "removexattr"];
+            let mutating_call = MUTATING.contains(&name);
+            let write_open = (name == "open" || name == "openat" || name == "openat2") && (line.contains("O_WRONLY") || line.contains("O_RDWR") || line.contains("O_CREAT") || line.contains("O_TRUNC") || line.contains("O_APPEND"));
             if !(mutating_call || write_open) { continue; }
             // paths under the scratch base, absolute or relative to the served root (the server's cwd)
             let touches = line.contains(&base) || (line.contains("\"") && !line.contains("\"/") && !root.is_empty());
